@@ -52,6 +52,9 @@ pub struct Scn {
     pub raw: bool,
     /// a gated QoS 1 publish handler is in flight for the whole scenario
     pub busy: bool,
+    /// client roles: the application sends a QoS 1 publish at the start; the peer acknowledges it
+    /// only after this many ms (the send window, 1, is full across a keep-alive tick)
+    pub client_send_ack_ms: Option<u64>,
     pub timeline: Vec<(u64, Act)>,
     pub observe_ms: u64,
     pub expect: Expect,
@@ -87,6 +90,14 @@ pub async fn run_scn(s: &Scn) -> Outc {
         c.peer.send(&R::Publish { dup: false, qos: 1, retain: false, topic: "busy".into(), pid: Some(77), props: vec![], payload: vec![1] });
         c.settle().await;
     }
+    let mut pending_send: Option<(crate::sink::Op, u64, bool)> = None;
+    if let Some(ack_ms) = s.client_send_ack_ms {
+        let sink = c.sink();
+        let mut op = crate::sink::Op::new(&app, crate::sink::next_op_id(), "q1", sink.send_qos1(&crate::sink::PubSpec::new("c/s", vec![1, 2, 3])));
+        op.start();
+        c.settle().await;
+        pending_send = Some((op, ack_ms, false));
+    }
     let t0 = Instant::now();
     let secs = |t: Instant| t.duration_since(t0).as_secs_f64();
     let mut actual: Vec<f64> = Vec::new();
@@ -113,6 +124,18 @@ pub async fn run_scn(s: &Scn) -> Outc {
             idx += 1;
         }
         c.settle().await;
+        if let Some((_, ack_ms, acked)) = pending_send.as_mut() {
+            if !*acked && t0.elapsed().as_millis() as u64 >= *ack_ms {
+                *acked = true;
+                let pid = app.wire().iter().find_map(|(_, p)| if let R::Publish { pid: Some(p), .. } = p { Some(*p) } else { None }).unwrap_or(1);
+                let ack = R::PubAck { pid, code: if s.role.is_v5() { Some(0) } else { None }, props: None };
+                if c.peer.is_open() {
+                    c.peer.write_quiet(&refcodec::encode(ver, &ack).unwrap());
+                }
+                app.log(Ev::Note(format!("t={:.2}s peer acknowledged the publish", secs(Instant::now()))));
+                c.settle().await;
+            }
+        }
         // client role: answer pings, remember when they came
         let pings = app.count(|e| matches!(e, Ev::Wire(R::PingReq)));
         while pings_seen < pings {
@@ -288,17 +311,17 @@ pub fn scenarios(quick: bool, rng: &mut Rng) -> Vec<Scn> {
                 continue;
             }
             let t = ka_timeout(k);
-            v.push(Scn { name: format!("{} idle, client keep-alive {k}", role.name()), role, cfg: base(&|c| c.keep_alive = k), raw: false, busy: false, timeline: vec![], observe_ms: ((t + LATE + 1.0) * 1000.0) as u64, expect: Expect::KeepAlive { timeout: t }, live_gap: None });
+            v.push(Scn { name: format!("{} idle, client keep-alive {k}", role.name()), role, cfg: base(&|c| c.keep_alive = k), raw: false, busy: false, client_send_ack_ms: None, timeline: vec![], observe_ms: ((t + LATE + 1.0) * 1000.0) as u64, expect: Expect::KeepAlive { timeout: t }, live_gap: None });
         }
         // server override
         for x in [1u16, 2, 3] {
             if quick && x != 2 {
                 continue;
             }
-            v.push(Scn { name: format!("{} idle, client keep-alive 10, handshake imposes {x}", role.name()), role, cfg: base(&|c| { c.keep_alive = 10; c.hs.keepalive = Some(x); }), raw: false, busy: false, timeline: vec![], observe_ms: ((x as f64 + LATE + 1.0) * 1000.0) as u64, expect: Expect::KeepAlive { timeout: x as f64 }, live_gap: None });
+            v.push(Scn { name: format!("{} idle, client keep-alive 10, handshake imposes {x}", role.name()), role, cfg: base(&|c| { c.keep_alive = 10; c.hs.keepalive = Some(x); }), raw: false, busy: false, client_send_ack_ms: None, timeline: vec![], observe_ms: ((x as f64 + LATE + 1.0) * 1000.0) as u64, expect: Expect::KeepAlive { timeout: x as f64 }, live_gap: None });
         }
         // keep-alive 0: the 30 s default does not fire within the observation
-        v.push(Scn { name: format!("{} idle, client keep-alive 0", role.name()), role, cfg: base(&|c| c.keep_alive = 0), raw: false, busy: false, timeline: vec![], observe_ms: 6000, expect: Expect::Alive, live_gap: None });
+        v.push(Scn { name: format!("{} idle, client keep-alive 0", role.name()), role, cfg: base(&|c| c.keep_alive = 0), raw: false, busy: false, client_send_ack_ms: None, timeline: vec![], observe_ms: 6000, expect: Expect::Alive, live_gap: None });
         // live peers: keep-alive 2 (3 s), a complete packet every 1.5 s, whole or fragmented, idle or busy handlers
         for (frags, busy) in [(1usize, false), (3, false), (1, true), (3, true)] {
             if quick && frags == 3 && busy {
@@ -313,9 +336,27 @@ pub fn scenarios(quick: bool, rng: &mut Rng) -> Vec<Scn> {
                 cfg: base(&|c| c.keep_alive = 2),
                 raw: false,
                 busy,
+                client_send_ack_ms: None,
                 timeline: tl,
                 observe_ms: last + ((3.0 + LATE + 0.5) * 1000.0) as u64,
                 expect: Expect::KeepAlive { timeout: 3.0 },
+                live_gap: Some(3.0 - EARLY),
+            });
+        }
+        // live peer while the server itself has paused reading (in-flight limit exhausted by a busy handler)
+        {
+            let tl = traffic(ver, 300, 7, 1000, 1, 0);
+            let last = tl.last().unwrap().0;
+            v.push(Scn {
+                name: format!("{} keep-alive 2, receive limit 1 exhausted by a busy handler, peer keeps sending PINGREQ every 1s", role.name()),
+                role,
+                cfg: base(&|c| { c.keep_alive = 2; c.max_receive = 1; c.max_receive_size = 1; }),
+                raw: false,
+                busy: true,
+                client_send_ack_ms: None,
+                timeline: tl,
+                observe_ms: last + 800,
+                expect: Expect::Alive,
                 live_gap: Some(3.0 - EARLY),
             });
         }
@@ -326,20 +367,20 @@ pub fn scenarios(quick: bool, rng: &mut Rng) -> Vec<Scn> {
             }
             let tl = traffic(ver, 300, n, 700, 1, 0);
             let last = tl.last().unwrap().0;
-            v.push(Scn { name: format!("{} override 2, {n} packet(s) then silence", role.name()), role, cfg: base(&|c| { c.keep_alive = 10; c.hs.keepalive = Some(2); }), raw: false, busy: false, timeline: tl, observe_ms: last + ((2.0 + LATE + 0.5) * 1000.0) as u64, expect: Expect::KeepAlive { timeout: 2.0 }, live_gap: Some(2.0 - EARLY) });
+            v.push(Scn { name: format!("{} override 2, {n} packet(s) then silence", role.name()), role, cfg: base(&|c| { c.keep_alive = 10; c.hs.keepalive = Some(2); }), raw: false, busy: false, client_send_ack_ms: None, timeline: tl, observe_ms: last + ((2.0 + LATE + 0.5) * 1000.0) as u64, expect: Expect::KeepAlive { timeout: 2.0 }, live_gap: Some(2.0 - EARLY) });
         }
         // long-lived live connection
         if !quick {
             let tl = traffic(ver, 300, 12, 1400, 2, 300);
             let last = tl.last().unwrap().0;
-            v.push(Scn { name: format!("{} keep-alive 2, 12 fragmented packets every 1.4s, stays alive", role.name()), role, cfg: base(&|c| c.keep_alive = 2), raw: false, busy: false, timeline: tl, observe_ms: last + 500, expect: Expect::Alive, live_gap: Some(3.0 - EARLY) });
+            v.push(Scn { name: format!("{} keep-alive 2, 12 fragmented packets every 1.4s, stays alive", role.name()), role, cfg: base(&|c| c.keep_alive = 2), raw: false, busy: false, client_send_ack_ms: None, timeline: tl, observe_ms: last + 500, expect: Expect::Alive, live_gap: Some(3.0 - EARLY) });
         }
         // ---- frame read rate: period 1 s, at least 10 bytes per period, at most 4 s per frame
         // a frame the decoder needs completely (PUBLISH is handed over as soon as its header is in)
         let big = refcodec::encode(ver, &R::Subscribe { pid: 9, props: vec![], filters: (0..8).map(|i| (format!("r/{i}/{}", "x".repeat(44)), 0u8)).collect() }).unwrap();
         let rr = |mt: u16| base(&|c| { c.keep_alive = 30; c.frame_read_rate = Some((1, mt, 10)); });
         // stall right after the first bytes
-        v.push(Scn { name: format!("{} read rate: 8 bytes of a frame, then stall", role.name()), role, cfg: rr(4), raw: false, busy: false, timeline: vec![(300, Act::Send { bytes: big[..8].to_vec(), completes: false })], observe_ms: 300 + ((1.0 + LATE + 0.5) * 1000.0) as u64, expect: Expect::ReadTimeout { anchor: 0, after: 1.0 }, live_gap: None });
+        v.push(Scn { name: format!("{} read rate: 8 bytes of a frame, then stall", role.name()), role, cfg: rr(4), raw: false, busy: false, client_send_ack_ms: None, timeline: vec![(300, Act::Send { bytes: big[..8].to_vec(), completes: false })], observe_ms: 300 + ((1.0 + LATE + 0.5) * 1000.0) as u64, expect: Expect::ReadTimeout { anchor: 0, after: 1.0 }, live_gap: None });
         // fast enough, completes within max_timeout
         {
             let frame = refcodec::encode(ver, &R::Subscribe { pid: 8, props: vec![], filters: (0..3).map(|i| (format!("ok/{i}/{}", "y".repeat(40)), 0u8)).collect() }).unwrap();
@@ -349,7 +390,7 @@ pub fn scenarios(quick: bool, rng: &mut Rng) -> Vec<Scn> {
                 tl.push((300 + j as u64 * 250, Act::Send { bytes: ch.to_vec(), completes: j + 1 == chunks.len() }));
             }
             let last = tl.last().unwrap().0;
-            v.push(Scn { name: format!("{} read rate: 60 B/s trickle completes in {:.1}s (< max 4s)", role.name(), (last - 300) as f64 / 1000.0), role, cfg: rr(4), raw: false, busy: false, timeline: tl, observe_ms: last + 1500, expect: Expect::Alive, live_gap: None });
+            v.push(Scn { name: format!("{} read rate: 60 B/s trickle completes in {:.1}s (< max 4s)", role.name(), (last - 300) as f64 / 1000.0), role, cfg: rr(4), raw: false, busy: false, client_send_ack_ms: None, timeline: tl, observe_ms: last + 1500, expect: Expect::Alive, live_gap: None });
         }
         // too slow from the start: 4 bytes per second
         {
@@ -357,7 +398,7 @@ pub fn scenarios(quick: bool, rng: &mut Rng) -> Vec<Scn> {
             for j in 0..8u64 {
                 tl.push((300 + j * 500, Act::Send { bytes: big[(j * 2) as usize..(j * 2 + 2) as usize].to_vec(), completes: false }));
             }
-            v.push(Scn { name: format!("{} read rate: 4 B/s trickle (below 10 B/s)", role.name()), role, cfg: rr(4), raw: false, busy: false, timeline: tl, observe_ms: 300 + ((1.0 + LATE + 0.5) * 1000.0) as u64, expect: Expect::ReadTimeout { anchor: 0, after: 1.0 }, live_gap: None });
+            v.push(Scn { name: format!("{} read rate: 4 B/s trickle (below 10 B/s)", role.name()), role, cfg: rr(4), raw: false, busy: false, client_send_ack_ms: None, timeline: tl, observe_ms: 300 + ((1.0 + LATE + 0.5) * 1000.0) as u64, expect: Expect::ReadTimeout { anchor: 0, after: 1.0 }, live_gap: None });
         }
         // fast for two periods, then stall: must be ended one period after the stall began
         for mt in [0u16, 6] {
@@ -370,7 +411,7 @@ pub fn scenarios(quick: bool, rng: &mut Rng) -> Vec<Scn> {
             }
             let last_idx = tl.len() - 1;
             let last = tl.last().unwrap().0;
-            v.push(Scn { name: format!("{} read rate (max {mt}): 60 B/s for 2 s, then stall", role.name()), role, cfg: rr(mt), raw: false, busy: false, timeline: tl, observe_ms: last + ((2.0 + LATE + 0.5) * 1000.0) as u64, expect: Expect::ReadTimeout { anchor: last_idx, after: 1.5 }, live_gap: None });
+            v.push(Scn { name: format!("{} read rate (max {mt}): 60 B/s for 2 s, then stall", role.name()), role, cfg: rr(mt), raw: false, busy: false, client_send_ack_ms: None, timeline: tl, observe_ms: last + ((2.0 + LATE + 0.5) * 1000.0) as u64, expect: Expect::ReadTimeout { anchor: last_idx, after: 1.5 }, live_gap: None });
         }
         // fast but longer than max_timeout: ended by the cap
         if !quick {
@@ -378,7 +419,7 @@ pub fn scenarios(quick: bool, rng: &mut Rng) -> Vec<Scn> {
             for j in 0..26u64 {
                 tl.push((300 + j * 250, Act::Send { bytes: big[(j * 15) as usize..(j * 15 + 15) as usize].to_vec(), completes: false }));
             }
-            v.push(Scn { name: format!("{} read rate: fast trickle runs into max_timeout 3", role.name()), role, cfg: rr(3), raw: false, busy: false, timeline: tl, observe_ms: 300 + ((3.0 + LATE + 1.0) * 1000.0) as u64, expect: Expect::ReadTimeout { anchor: 0, after: 3.0 }, live_gap: None });
+            v.push(Scn { name: format!("{} read rate: fast trickle runs into max_timeout 3", role.name()), role, cfg: rr(3), raw: false, busy: false, client_send_ack_ms: None, timeline: tl, observe_ms: 300 + ((3.0 + LATE + 1.0) * 1000.0) as u64, expect: Expect::ReadTimeout { anchor: 0, after: 3.0 }, live_gap: None });
         }
         // ---- connect timeout 2 s
         for (combined, what, bytes) in [(false, "nothing", 0usize), (false, "5 bytes of CONNECT", 5), (true, "nothing", 0), (true, "5 bytes of CONNECT", 5)] {
@@ -388,30 +429,40 @@ pub fn scenarios(quick: bool, rng: &mut Rng) -> Vec<Scn> {
             let cfg = base(&|c| { c.connect_timeout = 2; c.combined = combined; });
             let connect = refcodec::encode(ver, &cfg.peer_connect()).unwrap();
             let tl = if bytes > 0 { vec![(200, Act::Send { bytes: connect[..bytes].to_vec(), completes: false })] } else { vec![] };
-            v.push(Scn { name: format!("{}{} connect timeout 2: peer sends {what}", role.name(), if combined { " (combined)" } else { "" }), role, cfg, raw: true, busy: false, timeline: tl, observe_ms: ((2.0 + LATE + 0.5) * 1000.0) as u64, expect: Expect::ConnectTimeout { after: 2.0 }, live_gap: None });
+            v.push(Scn { name: format!("{}{} connect timeout 2: peer sends {what}", role.name(), if combined { " (combined)" } else { "" }), role, cfg, raw: true, busy: false, client_send_ack_ms: None, timeline: tl, observe_ms: ((2.0 + LATE + 0.5) * 1000.0) as u64, expect: Expect::ConnectTimeout { after: 2.0 }, live_gap: None });
         }
         {
             // CONNECT completes in time: the connect timer must not fire later
             let cfg = base(&|c| { c.connect_timeout = 2; c.keep_alive = 0; });
             let connect = refcodec::encode(ver, &cfg.peer_connect()).unwrap();
             let tl = vec![(200, Act::Send { bytes: connect[..6].to_vec(), completes: false }), (1200, Act::Send { bytes: connect[6..].to_vec(), completes: true })];
-            v.push(Scn { name: format!("{} connect timeout 2: CONNECT completes after 1.2s, then idle", role.name()), role, cfg, raw: true, busy: false, timeline: tl, observe_ms: 5500, expect: Expect::Alive, live_gap: None });
+            v.push(Scn { name: format!("{} connect timeout 2: CONNECT completes after 1.2s, then idle", role.name()), role, cfg, raw: true, busy: false, client_send_ack_ms: None, timeline: tl, observe_ms: 5500, expect: Expect::Alive, live_gap: None });
         }
     }
     for role in [Role::V3Client, Role::V5Client] {
         for k in [1u16, 2] {
             let mut cfg = ConnCfg::new(role);
             cfg.keep_alive = k;
-            v.push(Scn { name: format!("{} idle client, keep-alive {k}", role.name()), role, cfg, raw: false, busy: false, timeline: vec![], observe_ms: (3 * k as u64 + 2) * 1000, expect: Expect::ClientPings { period: k as f64 }, live_gap: None });
+            v.push(Scn { name: format!("{} idle client, keep-alive {k}", role.name()), role, cfg, raw: false, busy: false, client_send_ack_ms: None, timeline: vec![], observe_ms: (3 * k as u64 + 2) * 1000, expect: Expect::ClientPings { period: k as f64 }, live_gap: None });
+        }
+        {
+            // the send window (1) is full when the first keep-alive tick comes; the client must keep pinging
+            let mut cfg = ConnCfg::new(role);
+            cfg.keep_alive = 2;
+            cfg.max_send = 1;
+            if role == Role::V5Client {
+                cfg.connack_props = vec![Prop::U16(0x21, 1)];
+            }
+            v.push(Scn { name: format!("{} client keep-alive 2, send window full across the first tick", role.name()), role, cfg, raw: false, busy: false, client_send_ack_ms: Some(2600), timeline: vec![], observe_ms: 9000, expect: Expect::ClientPings { period: 2.0 }, live_gap: None });
         }
         let mut cfg = ConnCfg::new(role);
         cfg.keep_alive = 0;
-        v.push(Scn { name: format!("{} idle client, keep-alive 0", role.name()), role, cfg, raw: false, busy: false, timeline: vec![], observe_ms: 4000, expect: Expect::NoPings, live_gap: None });
+        v.push(Scn { name: format!("{} idle client, keep-alive 0", role.name()), role, cfg, raw: false, busy: false, client_send_ack_ms: None, timeline: vec![], observe_ms: 4000, expect: Expect::NoPings, live_gap: None });
         if role == Role::V5Client {
             let mut cfg = ConnCfg::new(role);
             cfg.keep_alive = 5;
             cfg.connack_props = vec![Prop::U16(0x13, 1)];
-            v.push(Scn { name: "v5/client keep-alive 5, server keep-alive 1 in CONNACK".into(), role, cfg, raw: false, busy: false, timeline: vec![], observe_ms: 5000, expect: Expect::ClientPings { period: 1.0 }, live_gap: None });
+            v.push(Scn { name: "v5/client keep-alive 5, server keep-alive 1 in CONNACK".into(), role, cfg, raw: false, busy: false, client_send_ack_ms: None, timeline: vec![], observe_ms: 5000, expect: Expect::ClientPings { period: 1.0 }, live_gap: None });
         }
     }
     // thorough: random arrival patterns, keep-alive from the client (2 -> 3 s) or imposed (2 / 3 s)
@@ -456,6 +507,7 @@ pub fn scenarios(quick: bool, rng: &mut Rng) -> Vec<Scn> {
                 cfg,
                 raw: false,
                 busy: rng.below(3) == 0,
+                client_send_ack_ms: None,
                 timeline: tl,
                 observe_ms: last + ((timeout + LATE + 0.5) * 1000.0) as u64,
                 expect: Expect::KeepAlive { timeout },
